@@ -7,6 +7,16 @@ use geodesy::authoring::*;
 pub fn exec_oracle(kind: &str, fields: &[&str]) -> String {
     match kind {
         "S_C12" => oracle_c12(fields),
+        "S_C12R" => {
+            // well-formedness of a stack sub-command: "1" = must be accepted, "0" = must be rejected
+            let def = unescape(fields[1]);
+            let got = Minimal::default().op(&def).is_ok();
+            if got == (fields[0] == "1") {
+                "oracle pass".to_string()
+            } else {
+                format!("oracle FAIL '{def}' {} at instantiation", if got { "accepted although ill-formed" } else { "rejected although well-formed" })
+            }
+        }
         "S_C02" => oracle_c02(fields),
         "S_C03" => oracle_c03(fields),
         "S_C04" => oracle_c04(fields),
@@ -1465,6 +1475,66 @@ fn oracle_c19c(fields: &[&str]) -> String {
     }
     let sc = c.scale(2.0);
     check!((0..4).all(|i| same(sc[i], c[i] * 2.0)), "scale");
+    // bulk writes through the trait defaults, on every tuple type: `update` replaces the first
+    // min(len, dim) elements and leaves the rest alone, whatever the length of the slice
+    fn upd<T: CoordinateTuple + Copy>(t0: T, src: &[f64]) -> Option<String> {
+        for len in 0..=src.len() {
+            let mut t = t0;
+            t.update(&src[..len]);
+            for i in 0..t.dim() {
+                let want = if i < len { src[i] } else { t0.nth(i) };
+                if !same(t.nth(i), want) {
+                    return Some(format!("update of a {}D tuple from {len} values: element {i} is {} instead of {}", t.dim(), t.nth(i), want));
+                }
+            }
+        }
+        None
+    }
+    let src = [v[3], v[2], v[1], v[0], 5.5, 6.5];
+    for r in [upd(c, &src), upd(Coor3D([v[0], v[1], v[2]]), &src), upd(Coor2D([v[0], v[1]]), &src), upd((v[0], v[1]), &src)] {
+        if let Some(m) = r {
+            return format!("oracle FAIL {m}");
+        }
+    }
+    {
+        let mut t = Coor32([v[0] as f32, v[1] as f32]);
+        let t0 = t;
+        t.update(&[1.5, 2.5, 3.5]);
+        check!(t.nth(0) == 1.5 && t.nth(1) == 2.5, "update of a Coor32 from 3 values gives {:?}", t);
+        let mut t = t0;
+        t.update(&[4.5]);
+        check!(t.nth(0) == 4.5 && same(t.nth(1), t0.nth(1)), "update of a Coor32 from 1 value");
+    }
+    // set_xyz / set_xyzt: all or (too short) all-NaN; fill
+    let mut w = c;
+    w.set_xyz(1.0, 2.0, 3.0);
+    check!(w[0] == 1.0 && w[1] == 2.0 && w[2] == 3.0 && same(w[3], c[3]), "set_xyz on 4D");
+    w.set_xyzt(4.0, 5.0, 6.0, 7.0);
+    check!(w.0 == [4.0, 5.0, 6.0, 7.0], "set_xyzt on 4D");
+    let mut w3 = Coor3D([v[0], v[1], v[2]]);
+    w3.set_xyz(1.0, 2.0, 3.0);
+    check!(w3.0 == [1.0, 2.0, 3.0], "set_xyz on 3D");
+    w3.set_xyzt(4.0, 5.0, 6.0, 7.0);
+    check!(w3.0.iter().all(|x| x.is_nan()), "set_xyzt on 3D must fill NaN");
+    let mut w2 = Coor2D([v[0], v[1]]);
+    w2.set_xyz(1.0, 2.0, 3.0);
+    check!(w2.0.iter().all(|x| x.is_nan()), "set_xyz on 2D must fill NaN");
+    let mut w2 = Coor2D([v[0], v[1]]);
+    w2.set_xy(8.0, 9.0);
+    check!(w2.0 == [8.0, 9.0], "set_xy on 2D");
+    w2.fill(v[2]);
+    check!(same(w2[0], v[2]) && same(w2[1], v[2]), "fill");
+    // distances and the dot product are element-wise definitions
+    let o3 = Coor3D([v[3], v[2], v[1]]);
+    let c3 = Coor3D([v[0], v[1], v[2]]);
+    check!(same(c.hypot2(&o), (c[0] - o[0]).hypot(c[1] - o[1])), "hypot2");
+    check!(same(c3.hypot3(&o3), (c3[0] - o3[0]).hypot(c3[1] - o3[1]).hypot(c3[2] - o3[2])), "hypot3");
+    check!(Coor2D([v[0], v[1]]).hypot3(&Coor2D([v[1], v[0]])).is_nan(), "hypot3 of 2D tuples is NaN");
+    let mut dot = 0.0;
+    for i in 0..4 {
+        dot += c[i] * o[i];
+    }
+    check!(same(c.dot(o), dot), "dot");
     "oracle pass".to_string()
 }
 
